@@ -218,7 +218,8 @@ impl ObjectTransmissionInformation {
         let kl = |n: u32| -> u32 {
             for &(kprime, _, _, _, _) in SYSTEMATIC_INDICES_AND_PARAMETERS.iter().rev() {
                 let x = int_div_ceil(symbol_size as u64, alignment as u64 * n as u64);
-                if kprime <= (decoder_memory_requirement / (alignment as u64 * x as u64)) as u32 {
+                // Compare in u64: the quotient exceeds u32 for large memory budgets
+                if kprime as u64 <= decoder_memory_requirement / (alignment as u64 * x as u64) {
                     return kprime;
                 }
             }
